@@ -93,7 +93,12 @@
         ensures
             // nothing false: a returned pair is a proper factorization of n
             r matches Some((d, q)) ==> 1 < d < n && 1 < q < n && d as int * q as int == n as int,
+            // completeness of the two stages: when nothing is returned, x = 2^E (E the product of the stage-1 blocks
+            // allowed by the budget) has gcd(n, x - 1) trivial and, if stage 2 ran, so is the gcd of n with the product of
+            // x^l - 1 over the first pmax primes l of the stage-2 table
+            r is None ==> pm1_none_ok(self.fs(), self.ls(), n as nat, budget as int),
     {
+        let ghost nn = n as nat;
         assert!(n % 2 == 1);
         // We have a lot of modular reductions to compute,
         // so we use Montgomery forms.
@@ -107,7 +112,14 @@
             vstd::arithmetic::div_mod::lemma_mod_bound(two64(), n as int);
         }
         let one_r = ((1u128 << 64) % (n as u128)) as u64;
-        proof { vstd::arithmetic::div_mod::lemma_mod_bound(2 * one_r as int, n as int); }
+        proof {
+            vstd::arithmetic::div_mod::lemma_mod_bound(2 * one_r as int, n as int);
+            lemma_mrep_one(n, one_r);
+            // 2 one_r mod n = 2 R mod n
+            vstd::arithmetic::div_mod::lemma_mul_mod_noop_right(2, two64(), n as int);
+            lemma_pms_one(2, nn);
+            lemma_small_mod(2, nn);
+        }
         let mut xr = ((2 * one_r as u128) % (n as u128)) as u64;
         proof {
             assert((xr as int) < n as int * two64()) by (nonlinear_arith) requires n >= 1, (xr as int) < two64();
@@ -134,36 +146,72 @@
                 requires 0 <= budget as int <= 0xffff_ffff, 0 <= self.factors@.len() as int <= 0x2_0000;
         }
         let fmax = std::cmp::min(self.factors.len(), budget * self.factors.len() / 1024);
+        let ghost sblk = self.factors@.take(fmax as int);
+        let ghost mut done: int = 0;
+        proof {
+            assert(sblk.take(0) =~= Seq::<u32>::empty());
+            assert(prod32(sblk.take(0)) == 1);
+            assert(mrep(xr, pow_mod_spec(2, 1, nn), nn));
+        }
         let verif_ch_block = &self.factors[..fmax]; for verif_c_block in 0..ol_chunk_count(verif_ch_block.len(), 8)
             invariant
                 xr < n, one_r < n, n >= 3, n % 2 == 1, (n as int * ninv as int + 1) % two64() == 0,
-                verif_ch_block@.len() == fmax,
+                verif_ch_block@.len() == fmax, verif_ch_block@ == sblk, nn == n as nat, mrep(one_r, 1, nn),
+                done == (if 8 * verif_c_block <= fmax { 8 * verif_c_block as int } else { fmax as int }),
+                mrep(xr, pow_mod_spec(2, prod32(sblk.take(done)), nn), nn),
         {
             proof { lemma_chunk_count(verif_ch_block.len(), 8, verif_c_block as int); }
             let block = ol_chunk(verif_ch_block, verif_c_block, 8);
+            let ghost base = 8 * verif_c_block as int;
             for verif_s_f in 0..block.len()
                 invariant
                     xr < n, one_r < n, n >= 3, n % 2 == 1, (n as int * ninv as int + 1) % two64() == 0,
+                    nn == n as nat, mrep(one_r, 1, nn), sblk.len() == fmax, base == 8 * verif_c_block as int,
+                    block@ == sblk.subrange(base, if base + 8 <= fmax { base + 8 } else { fmax as int }),
+                    done == base + verif_s_f, 0 <= base < fmax,
+                    mrep(xr, pow_mod_spec(2, prod32(sblk.take(done)), nn), nn),
             {
                 let f = block[verif_s_f];
+                let ghost e0 = prod32(sblk.take(done));
+                let ghost x0 = pow_mod_spec(2, e0, nn);
+                let ghost mut vres: nat = 1;
+                let ghost mut vsq: nat = x0;
+                proof {
+                    assert(f == sblk[done]);
+                    lemma_pms_lt(2, e0, nn);
+                    lemma_sqmul_init(x0, f as nat, nn);
+                }
                 // Compute x^f
                 let mut res = one_r;
                 let mut sq = xr;
                 let mut exp = f;
                 while exp > 0
                     invariant
-                        res < n, sq < n, n >= 3, (n as int * ninv as int + 1) % two64() == 0,
+                        res < n, sq < n, n >= 3, n % 2 == 1, (n as int * ninv as int + 1) % two64() == 0, nn == n as nat,
+                        mrep(res, vres, nn), mrep(sq, vsq, nn), sqmul_inv(x0, f as nat, vres, vsq, exp as nat, nn),
                     decreases exp,
                 {
                     proof {
                         lemma_mul_lt(res as int, n as int, sq as int, two64());
                         lemma_mul_lt(sq as int, n as int, sq as int, two64());
+                        lemma_sqmul_step(x0, f as nat, vres, vsq, exp as nat, nn);
+                        assert((exp & 1 == 1) == (exp % 2 == 1)) by (bit_vector);
                     }
+                    let ghost res0 = res;
                     if exp & 1 == 1 {
                         res = mg_mul(n, ninv, res, sq);
+                        proof { lemma_mrep_mul(res0, vres, sq, vsq, res, nn); vres = (vres * vsq) % nn; }
                     }
+                    let ghost sq0 = sq;
                     sq = mg_mul(n, ninv, sq, sq);
+                    proof { lemma_mrep_mul(sq0, vsq, sq0, vsq, sq, nn); vsq = (vsq * vsq) % nn; }
                     exp /= 2;
+                }
+                proof {
+                    lemma_sqmul_done(x0, f as nat, vres, vsq, nn);
+                    lemma_pms_pow_pow(2, e0, f as nat, nn);
+                    lemma_prod32_take_next(sblk, done);
+                    done = done + 1;
                 }
                 xr = res;
             }
@@ -176,10 +224,22 @@
                 return Some((d, n / d));
             }
         }
+        let ghost xx = pow_mod_spec(2, prod32(sblk), nn);
+        proof {
+            assert(done == fmax);
+            assert(sblk.take(fmax as int) =~= sblk);
+            lemma_pms_lt(2, prod32(sblk), nn);
+        }
         let d = Integer::gcd(&n, &mg_sub(n, xr, one_r));
         if d > 1 && d < n {
             proof { lemma_proper_divisor(n as int, d as int); }
             return Some((d, n / d));
+        }
+        proof {
+            let sv = ((xr as int - one_r as int) % (n as int)) as u64;
+            vstd::arithmetic::div_mod::lemma_mod_bound(xr as int - one_r as int, n as int);
+            lemma_mrep_sub(xr, xx, one_r, 1, sv, nn);
+            lemma_trivial_gcd_mrep(sv, ((xx + nn - 1) as nat) % nn, nn, d as int);
         }
         // Start stage 2.
         // We still have not factored but maybe the order of xr is a small prime
@@ -191,31 +251,67 @@
         proof { lemma_mul_lt(xr as int, n as int, xr as int, two64()); }
         // Compute xr^2k for 2k = 2 ... 86
         let xr2 = mg_mul(n, ninv, xr, xr);
+        proof {
+            lemma_mrep_mul(xr, xx, xr, xx, xr2, nn);
+            lemma_pms_one(xx, nn);
+            lemma_small_mod(xx, nn);
+            lemma_pms_double(xx, 1, nn);
+        }
         // jumps[k] = xr^(2k+2)
         let mut jumps = [0u64; 64];
         let mut j = xr2;
         for k in 1..=jumps.len()
             invariant
-                jumps@.len() == 64, j < n, xr2 < n, n >= 3, (n as int * ninv as int + 1) % two64() == 0,
+                jumps@.len() == 64, j < n, xr2 < n, n >= 3, n % 2 == 1, (n as int * ninv as int + 1) % two64() == 0, nn == n as nat,
                 forall|i: int| 0 <= i < k - 1 ==> (#[trigger] jumps@[i]) < n,
+                mrep(xr2, pow_mod_spec(xx, 2, nn), nn),
+                mrep(j, pow_mod_spec(xx, (2 * k) as nat, nn), nn),
+                forall|i: int| 0 <= i < k - 1 ==> mrep(#[trigger] jumps@[i], pow_mod_spec(xx, (2 * i + 2) as nat, nn), nn),
         {
             jumps[k - 1] = j;
             proof { lemma_mul_lt(j as int, n as int, xr2 as int, two64()); }
+            let ghost j0 = j;
             j = mg_mul(n, ninv, j, xr2);
+            proof {
+                lemma_mrep_mul(j0, pow_mod_spec(xx, (2 * k) as nat, nn), xr2, pow_mod_spec(xx, 2, nn), j, nn);
+                lemma_pms_add(xx, (2 * k) as nat, 2, nn);
+            }
         }
         proof {
             assert(jumps@[59] < n && jumps@[10] < n);
             lemma_mul_lt(jumps@[59] as int, n as int, jumps@[59] as int, two64());
+            assert(mrep(jumps@[59], pow_mod_spec(xx, 120, nn), nn));
+            assert(mrep(jumps@[10], pow_mod_spec(xx, 22, nn), nn));
         }
         // The first large prime is 503 = 120 * 4 + 22 + 1
         let xr240 = mg_mul(n, ninv, jumps[120 / 2 - 1], jumps[120 / 2 - 1]);
-        proof { lemma_mul_lt(xr240 as int, n as int, xr240 as int, two64()); }
+        proof {
+            lemma_mul_lt(xr240 as int, n as int, xr240 as int, two64());
+            lemma_mrep_mul(jumps@[59], pow_mod_spec(xx, 120, nn), jumps@[59], pow_mod_spec(xx, 120, nn), xr240, nn);
+            lemma_pms_add(xx, 120, 120, nn);
+        }
         let xr480 = mg_mul(n, ninv, xr240, xr240);
-        proof { lemma_mul_lt(xr480 as int, n as int, jumps@[10] as int, two64()); }
+        proof {
+            lemma_mul_lt(xr480 as int, n as int, jumps@[10] as int, two64());
+            lemma_mrep_mul(xr240, pow_mod_spec(xx, 240, nn), xr240, pow_mod_spec(xx, 240, nn), xr480, nn);
+            lemma_pms_add(xx, 240, 240, nn);
+        }
         let xr502 = mg_mul(n, ninv, xr480, jumps[22 / 2 - 1]);
-        proof { lemma_mul_lt(xr502 as int, n as int, xr as int, two64()); }
+        proof {
+            lemma_mul_lt(xr502 as int, n as int, xr as int, two64());
+            lemma_mrep_mul(xr480, pow_mod_spec(xx, 480, nn), jumps@[10], pow_mod_spec(xx, 22, nn), xr502, nn);
+            lemma_pms_add(xx, 480, 22, nn);
+        }
         let mut h = mg_mul(n, ninv, xr502, xr);
+        proof {
+            lemma_mrep_mul(xr502, pow_mod_spec(xx, 502, nn), xr, pow_mod_spec(xx, 1, nn), h, nn);
+            lemma_pms_add(xx, 502, 1, nn);
+        }
         let mut product = mg_sub(n, h, one_r);
+        proof {
+            lemma_mrep_sub(h, pow_mod_spec(xx, 503, nn), one_r, 1, product, nn);
+            lemma_pm1_s2_first(xx, self.larges@, nn);
+        }
         let mut exp = 503;
         debug_assert!(self.larges[0] == 503);
         let verif_e_p = &self.larges[1..pmax]; for idx in 0..verif_e_p.len()
@@ -224,7 +320,10 @@
                 jumps@.len() == 64, forall|i: int| 0 <= i < 64 ==> (#[trigger] jumps@[i]) < n,
                 1 <= pmax <= self.larges@.len(), pm1_larges_ok(self.larges@),
                 verif_e_p@ == self.larges@.subrange(1, pmax as int),
-                exp == self.larges@[idx as int],
+                exp == self.larges@[idx as int], n % 2 == 1, nn == n as nat, mrep(one_r, 1, nn),
+                forall|i: int| 0 <= i < 64 ==> mrep(#[trigger] jumps@[i], pow_mod_spec(xx, (2 * i + 2) as nat, nn), nn),
+                mrep(h, pow_mod_spec(xx, exp as nat, nn), nn),
+                mrep(product, pm1_s2(xx, self.larges@, idx + 1, nn), nn),
         {
             let p = verif_e_p[idx];
             if idx % 64 == 0 {
@@ -243,13 +342,26 @@
             // Accumulate the product of (h^p - 1) for primes p
             let gap = (p - exp) as usize;
             proof { lemma_mul_lt(h as int, n as int, jumps@[gap as int / 2 - 1] as int, two64()); }
+            let ghost h0 = h;
+            let ghost gi = gap as int / 2 - 1;
             h = mg_mul(n, ninv, h, jumps[gap / 2 - 1]);
             proof {
+                assert(2 * gi + 2 == gap);
+                lemma_mrep_mul(h0, pow_mod_spec(xx, exp as nat, nn), jumps@[gi], pow_mod_spec(xx, (2 * gi + 2) as nat, nn), h, nn);
+                lemma_pms_add(xx, exp as nat, gap as nat, nn);
+                assert(exp + gap == p);
                 let m = ((h as int - one_r as int) % (n as int));
                 vstd::arithmetic::div_mod::lemma_mod_bound(h as int - one_r as int, n as int);
                 lemma_mul_lt(product as int, n as int, m, two64());
+                lemma_mrep_sub(h, pow_mod_spec(xx, p as nat, nn), one_r, 1, m as u64, nn);
             }
+            let ghost product0 = product;
             product = mg_mul(n, ninv, product, mg_sub(n, h, one_r));
+            proof {
+                let m = ((h as int - one_r as int) % (n as int)) as u64;
+                lemma_mrep_mul(product0, pm1_s2(xx, self.larges@, idx + 1, nn), m, ((pow_mod_spec(xx, p as nat, nn) + nn - 1) as nat) % nn, product, nn);
+                assert(self.larges@[idx + 2 - 1] == p);
+            }
             exp = p;
         }
         let d = Integer::gcd(&n, &product);
@@ -257,6 +369,10 @@
             proof { lemma_proper_divisor(n as int, d as int); }
             return Some((d, n / d));
         } else {
+            proof {
+                assert(verif_e_p@.len() == pmax - 1);
+                lemma_trivial_gcd_mrep(product, pm1_s2(xx, self.larges@, pmax as int, nn), nn, d as int);
+            }
             None
         }
     }
